@@ -421,6 +421,7 @@ where
     let db = Database::open(&dir).map_err(|e| Fail::Harness(format!("open: {e}")))?;
     let mut src: BytesVec<usize, u64> = BytesVec::import(&db, "src", Version::ONE).map_err(|e| Fail::Harness(format!("import: {e}")))?;
     let mut src2: PcoVec<usize, u64> = PcoVec::import(&db, "src2", Version::ONE).map_err(|e| Fail::Harness(format!("import: {e}")))?;
+    let empty_src: BytesVec<usize, u64> = BytesVec::import(&db, "empty", Version::ONE).map_err(|e| Fail::Harness(format!("import: {e}")))?;
     let mut msrc: Vec<u64> = Vec::new();
     let mut own_version = 1u32;
     let mut dest: EagerVec<V> = EagerVec::import(&db, "dest", Version::new(own_version)).map_err(|e| Fail::Harness(format!("import dest: {e}")))?;
@@ -462,6 +463,33 @@ where
                 drop(dest);
                 dest = EagerVec::import(&db, "dest", Version::new(own_version)).map_err(|e| viol("result", format!("re-import: {e}")))?;
                 stats.bump("probe.dest_reimported");
+            }
+            "compute_nothing" => {
+                // a computation under the current input version that has nothing to store (empty
+                // source / to = 0): if the version changed it discards the old results in memory and
+                // writes nothing. What a later re-import brings back is then open (the discard was
+                // never persisted), so only the element-wise oracle of the next compute applies.
+                let presented = src_version;
+                let vs = Versioned { inner: &empty_src, version: Version::new(presented) };
+                set_batch_knob(knob);
+                let r = catch(|| match family.as_str() {
+                    "transform" | "transform2" => dest.compute_transform(0, &vs, |(i, v, _)| (i, h(presented, i, v)), &exit),
+                    "range" => dest.compute_range(0, &vs, |i| (i, 0), &exit),
+                    _ => dest.compute_to(0, 0, Version::new(presented), |i| (i, 0), &exit),
+                });
+                set_batch_knob(1 << 30);
+                match r {
+                    Err(p) => return Err(viol("panic", format!("step {step}: empty compute panicked: {p}"))),
+                    Ok(Err(e)) => return Err(viol("result", format!("step {step}: empty compute failed: {e}"))),
+                    Ok(Ok(())) => {}
+                }
+                if family != "transform2" {
+                    stored_under = None;
+                    stats.bump("probe.compute_with_nothing_to_store");
+                } else {
+                    // transform2 records another version sum: treat as an ordinary unknown state
+                    stored_under = None;
+                }
             }
             "compute" => {
                 let before: Vec<u64> = dest.collect();
@@ -635,9 +663,16 @@ impl Check for C19Check {
                 2 | 3 => json!({"op":"bump_source_version","by":rng.below(3),"down":rng.chance(1, 3)}),
                 4 => json!({"op":"dest_write"}),
                 5 => json!({"op":"dest_reimport"}),
+                6 if rng.chance(1, 2) => json!({"op":"compute_nothing"}),
                 6 => json!({"op":"check_recorded_version_survives"}),
                 _ => json!({"op":"compute","max_from":rng.next() >> 20}),
             });
+        }
+        if rng.chance(1, 3) {
+            // a version change whose computation stores nothing, a restart, then the real computation
+            ops.push(json!({"op":"bump_source_version","by":rng.below(3),"down":rng.chance(1, 3)}));
+            ops.push(json!({"op":"compute_nothing"}));
+            ops.push(json!({"op":"dest_reimport"}));
         }
         ops.push(json!({"op":"compute","max_from":rng.next() >> 20}));
         let knob = *rng.pick(&[8usize, 24, 100, 512, 1 << 30]);
@@ -660,7 +695,7 @@ impl Check for C19Check {
         r
     }
     fn rule(&self) -> String {
-        "compute families driven through closures the harness owns (compute_transform, compute_transform2, compute_range, compute_to); the closure records every index it is called with and returns h(version presented, i, source[i]); the source's version is a wrapper the harness controls. Histories interleave source appends, source version bumps, varying starting indices, destination writes, flush + re-import, and the batch knob. Oracle after EVERY compute call: version presented != version the stored results were produced under => the closure ran for every index from 0 and every stored element carries the new version (a surviving old-version value is reported as 'mixed'); version unchanged => no index below min(starting index, stored length) was evaluated, those elements are unchanged, and a repeat call evaluates nothing; header().computed_version() equals own version + presented versions after the call and survives flush + re-import. After every such call a second-level column is computed from the computed column itself (compute_transform with the EagerVec as source, continuing at its own length): it must equal f(i, input[i]) for every i, i.e. it is recomputed from 0 whenever its input was ('second-level-results-of-different-versions-mixed' otherwise). non-trivial = a compute call followed a version change or a recorded version was checked across a re-import".into()
+        "compute families driven through closures the harness owns (compute_transform, compute_transform2, compute_range, compute_to); the closure records every index it is called with and returns h(version presented, i, source[i]); the source's version is a wrapper the harness controls. Histories interleave source appends, source version bumps, varying starting indices, destination writes, flush + re-import, and the batch knob. Oracle after EVERY compute call: version presented != version the stored results were produced under => the closure ran for every index from 0 and every stored element carries the new version (a surviving old-version value is reported as 'mixed'); version unchanged => no index below min(starting index, stored length) was evaluated, those elements are unchanged, and a repeat call evaluates nothing; header().computed_version() equals own version + presented versions after the call and survives flush + re-import. After every such call a second-level column is computed from the computed column itself (compute_transform with the EagerVec as source, continuing at its own length): it must equal f(i, input[i]) for every i, i.e. it is recomputed from 0 whenever its input was ('second-level-results-of-different-versions-mixed' otherwise). A computation that has nothing to store (empty source / to = 0) may follow a version change and be followed by a re-import: the next real computation must still leave only results of the presented version. non-trivial = a compute call followed a version change or a recorded version was checked across a re-import".into()
     }
     fn assumptions(&self) -> Vec<String> {
         vec![
@@ -669,6 +704,6 @@ impl Check for C19Check {
         ]
     }
     fn required_probes(&self) -> Vec<&'static str> {
-        vec!["probe.compute_checked", "probe.compute_after_version_change", "probe.compute_with_unchanged_version", "probe.recorded_version_survived_reimport", "probe.source_version_changed", "probe.source_version_lowered", "probe.second_level_after_input_recompute"]
+        vec!["probe.compute_checked", "probe.compute_after_version_change", "probe.compute_with_unchanged_version", "probe.recorded_version_survived_reimport", "probe.source_version_changed", "probe.source_version_lowered", "probe.second_level_after_input_recompute", "probe.compute_with_nothing_to_store"]
     }
 }
